@@ -8,6 +8,7 @@ import (
 	"math"
 	"os"
 	"os/exec"
+	"reflect"
 	"strings"
 	"sync"
 
@@ -57,7 +58,7 @@ func streamForward(rep *Report, tier string, seed uint64) {
 				verbs = append(verbs, string(c))
 			}
 			verbs = append(verbs, "世", "é", "‹")
-			widths := []string{"", "0", "1", "7", "12", "1000", "*", "*0"}
+			widths := []string{"", "0", "1", "7", "12", "1000", "*", "*0", "*-"}
 			precs := []string{"", ".0", ".1", ".5", ".*"}
 			operands := []interface{}{true, 42, -7, uint8(200), 3.25, complex(1, -2), "str", []byte("by"), 'x', errors.New("e"), strg{"s"}, nil, []int{1, 2}, map[string]int{"a": 1}, struct{ A int }{3}, &intCell}
 			for m := 0; m < 32; m++ {
@@ -79,6 +80,11 @@ func streamForward(rep *Report, tier string, seed uint64) {
 								// an explicit width of 0 can only be given through '*'
 								wd = "*"
 								star = append(star, 0)
+							}
+							if w == "*-" {
+								// a negative '*' width: left-justify, and the '0' flag is dropped
+								wd = "*"
+								star = append(star, -7)
 							}
 							d := "%" + fl + wd + p + vb
 							if p == ".*" {
@@ -141,6 +147,16 @@ func streamForward(rep *Report, tier string, seed uint64) {
 									}
 									emit(Case{Line: fmt.Sprintf("mf %s %s %s %d", hx([]byte(ofl)), wpTok(s1.w, s1.wok), wpTok(s1.p, s1.pk), s1.verb),
 										Real: b01(s1.justV) + " " + hx([]byte(s1.format)), Nontriv: true, Kind: "mf"})
+								}
+							}
+							// (1b) the state a Formatter sees directly is the one fmt shows it (the '0'+'-' flag
+							// combination written out in the directive is the documented exception)
+							if vb != "T" && vb != "p" && vb != "w" && !((strings.Contains(fl, "0") || w == "0") && strings.Contains(fl, "-")) {
+								var rf, rr []probeState
+								_ = fmt.Sprintf(d, append(append([]interface{}{}, star...), probe{&rf})...)
+								_ = redact.Sprintf(d, append(append([]interface{}{}, star...), probe{&rr})...)
+								if len(rf) == 1 && len(rr) == 1 && rf[0].key() != rr[0].key() {
+									orc = append(orc, fmt.Sprintf("C14:a Formatter under %q with star operands %v sees %s under redact, %s under fmt", d, star, rr[0].key(), rf[0].key()))
 								}
 							}
 							// (3) a Formatter reached inside a container, after other elements were printed
@@ -229,7 +245,9 @@ func streamErrorf(rep *Report, tier string, seed uint64) {
 			resetRegistry()
 			defer redact.RegisterRedactErrorFn(nil)
 			e1, e2 := errors.New("err‹one"), wrapErr{"outer", errors.New("in")}
-			operandPool := []interface{}{e1, e2, nil, "notanerror", 42, redact.Safe(e1), redact.Unsafe(e2), (*nilRecvErr)(nil), errFmtr{"x"}, sfErr{"y"}}
+			operandPool := []interface{}{e1, e2, nil, "notanerror", 42, redact.Safe(e1), redact.Unsafe(e2), (*nilRecvErr)(nil), errFmtr{"x"}, sfErr{"y"},
+				// errors of non-comparable dynamic types
+				sliceErr{errors.New("m1"), errors.New("m2")}, mapErr{"k": "v"}, redact.Unsafe(sliceErr{errors.New("m3")})}
 			for i := 0; i < n; i++ {
 				hookOn := r.Chance(30)
 				if hookOn {
@@ -291,12 +309,12 @@ func streamErrorf(rep *Report, tier string, seed uint64) {
 						exactlyOne = false
 					}
 					if exactlyOne {
-						if err != wantErr {
+						if !sameErr(err, wantErr) {
 							orc = append(orc, fmt.Sprintf("C15:returned error %v, want the %%w operand %v", err, wantErr))
 						}
 					} else if err != nil {
 						site := ""
-						if nw >= 2 && reach == 1 && err == wantErr {
+						if nw >= 2 && reach == 1 && sameErr(err, wantErr) {
 							site = "D8:extra-w-without-dispatch@@"
 						}
 						orc = append(orc, fmt.Sprintf("%sC15:returned error %v although the format does not have exactly one correctly used %%w", site, err))
@@ -326,7 +344,7 @@ func streamErrorf(rep *Report, tier string, seed uint64) {
 							}
 							orc = append(orc, fmt.Sprintf("%sC15:text %q differs from fmt.Errorf's message %q", site, got, fe.Error()))
 						}
-						if u := errors.Unwrap(fe); u != err {
+						if u := errors.Unwrap(fe); !sameErr(u, err) {
 							orc = append(orc, fmt.Sprintf("C15:returned error %v differs from fmt.Errorf's Unwrap %v", err, u))
 						}
 					}
@@ -361,6 +379,30 @@ func replaceW(f string) string {
 // error operand of the last %w that reaches method dispatch, whether some %w
 // has an error operand, and how many %w directives reach method dispatch
 // (operand present and not nil).
+// sliceErr, mapErr: error types that cannot be compared with ==.
+type sliceErr []error
+
+func (s sliceErr) Error() string { return fmt.Sprintf("%d errors", len(s)) }
+
+type mapErr map[string]string
+
+func (m mapErr) Error() string { return "maperr" }
+
+// sameErr compares two error values without panicking on non-comparable dynamic types.
+func sameErr(a, b error) bool {
+	if a == nil || b == nil {
+		return a == nil && b == nil
+	}
+	ta, tb := reflect.TypeOf(a), reflect.TypeOf(b)
+	if ta != tb {
+		return false
+	}
+	if ta.Comparable() {
+		return a == b
+	}
+	return reflect.DeepEqual(a, b)
+}
+
 func expectedWrapped(f string, args []interface{}) (error, bool, int) {
 	argNum := 0
 	i := 0
